@@ -220,6 +220,10 @@ class PageWorld:
                                f"during {kind}; the write-back accounted for it started at t={started}ns, before that write, "
                                f"and no later write-back followed within one disk write latency: the written data never "
                                f"reached the device"})
+        if paid > len(gone):
+            # a write-back completed without any page leaving the dirty state: a second evictor of an already evicted
+            # victim, or (since bd4f48c) an evictor / flush whose page was written again while its write-back was in flight
+            self.probe("probe.page_writeback_completed_without_page_leaving_dirty_state")
         if self.pending_loss:
             now = self.now_ns()
             surplus = paid - len(gone)
